@@ -207,6 +207,100 @@ theorem pElem_paren {f : Nat} {e : PExpr} {ts1 ts3 : List Tok}
     (h : pLevel f 9 ts1 = .ok (e, ch 41 :: ts3)) : pElem (f + 1) (ch 40 :: ts1) = pMember f (setEnc e) ts3 := by
   rw [pElem.eq_def]; simp [h, ch, bind, Except.bind, cLP, cRP, cKW, cSTR, cDBL, cFLT, cINT, cHEX, Gen.TOKEN_DOUBLE, Gen.TOKEN_FLOAT, Gen.TOKEN_INTEGER, Gen.TOKEN_HEXANUM, Gen.TOKEN_LITERALSTR, Gen.TOKEN_KEYWORD]
 
+/-! ### calls, argument lists, members (one-step unfoldings) -/
+
+theorem pElem_call0 {f : Nat} {n : Bytes} {ts : List Tok} (hb : isBuiltinKw n = true) (hc : constKw n = none)
+    (ha : arityOk n 0 = true) : pElem (f + 1) (⟨cKW, n⟩ :: ch 40 :: ch 41 :: ts) = pMember f (.call n []) ts := by
+  rw [pElem.eq_def]; simp [hb, hc, ha, ch, cLP, cRP, cKW, cSTR, cDBL, cFLT, cINT, cHEX, Gen.TOKEN_DOUBLE, Gen.TOKEN_FLOAT, Gen.TOKEN_INTEGER, Gen.TOKEN_HEXANUM, Gen.TOKEN_LITERALSTR, Gen.TOKEN_KEYWORD]
+
+theorem pElem_callN {f : Nat} {n : Bytes} {t3 : Tok} {ts3 ts4 : List Tok} {args : List PExpr} (hb : isBuiltinKw n = true)
+    (hc : constKw n = none) (h3 : t3.code ≠ cRP) (hargs : pArgs f (t3 :: ts3) = .ok (args, ts4))
+    (ha : arityOk n args.length = true) :
+    pElem (f + 1) (⟨cKW, n⟩ :: ch 40 :: t3 :: ts3) = pMember f (.call n args) ts4 := by
+  have h3' : ¬ t3.code = 41 := h3
+  rw [pElem.eq_def]; simp [hb, hc, ha, h3', hargs, bind, Except.bind, ch, cLP, cRP, cKW, cSTR, cDBL, cFLT, cINT, cHEX, Gen.TOKEN_DOUBLE, Gen.TOKEN_FLOAT, Gen.TOKEN_INTEGER, Gen.TOKEN_HEXANUM, Gen.TOKEN_LITERALSTR, Gen.TOKEN_KEYWORD]
+
+theorem pElem_fcall0 {f : Nat} {n : Bytes} {ts : List Tok} (hb : isBuiltinKw n = false) :
+    pElem (f + 1) (⟨cKW, n⟩ :: ch 40 :: ch 41 :: ts) = pMember f (.fcall (upper n) []) ts := by
+  rw [pElem.eq_def]; simp [hb, ch, cLP, cRP, cKW, cSTR, cDBL, cFLT, cINT, cHEX, Gen.TOKEN_DOUBLE, Gen.TOKEN_FLOAT, Gen.TOKEN_INTEGER, Gen.TOKEN_HEXANUM, Gen.TOKEN_LITERALSTR, Gen.TOKEN_KEYWORD]
+
+theorem pElem_fcallN {f : Nat} {n : Bytes} {t3 : Tok} {ts3 ts4 : List Tok} {args : List PExpr} (hb : isBuiltinKw n = false)
+    (h3 : t3.code ≠ cRP) (hargs : pArgs f (t3 :: ts3) = .ok (args, ts4)) :
+    pElem (f + 1) (⟨cKW, n⟩ :: ch 40 :: t3 :: ts3) = pMember f (.fcall (upper n) args) ts4 := by
+  have h3' : ¬ t3.code = 41 := h3
+  rw [pElem.eq_def]; simp [hb, h3', hargs, bind, Except.bind, ch, cLP, cRP, cKW, cSTR, cDBL, cFLT, cINT, cHEX, Gen.TOKEN_DOUBLE, Gen.TOKEN_FLOAT, Gen.TOKEN_INTEGER, Gen.TOKEN_HEXANUM, Gen.TOKEN_LITERALSTR, Gen.TOKEN_KEYWORD]
+
+theorem pArgs_last {f : Nat} {ts ts2 : List Tok} {e : PExpr} (h : pLevel f 9 ts = .ok (e, ch 41 :: ts2)) :
+    pArgs (f + 1) ts = .ok ([e], ts2) := by
+  rw [pArgs.eq_def]; simp [h, bind, Except.bind, pure, Except.pure, ch, cCOMMA, cRP]
+
+theorem pArgs_more {f : Nat} {ts ts2 ts3 : List Tok} {e : PExpr} {es : List PExpr} (h : pLevel f 9 ts = .ok (e, ch 44 :: ts2))
+    (h2 : pArgs f ts2 = .ok (es, ts3)) : pArgs (f + 1) ts = .ok (e :: es, ts3) := by
+  rw [pArgs.eq_def]; simp [h, h2, bind, Except.bind, pure, Except.pure, ch, cCOMMA, cRP]
+
+theorem digitVal_ofNat' : ∀ k, k < 10 → digitVal (UInt8.ofNat (48 + k)) = some k := by decide
+
+/-- reading the digits `std::to_string(unsigned)` writes gives the number back (`Fmt.natStr`) -/
+theorem natOfDigits_digitsOf : ∀ fuel n, n < 10 ^ fuel → natOfDigits 10 (Fmt.digitsOf fuel n) = n := by
+  intro fuel
+  induction fuel with
+  | zero => intro n h; simp at h; subst h; simp [Fmt.digitsOf, natOfDigits]
+  | succ k ih =>
+    intro n h
+    unfold Fmt.digitsOf
+    split
+    · rename_i h10
+      show List.foldl (fun n c => n * 10 + (digitVal c).getD 0) 0 [UInt8.ofNat (48 + n)] = n
+      simp only [List.foldl]
+      rw [digitVal_ofNat' n h10]
+      simp
+    · rename_i h10
+      have e : ∀ (l : Bytes) (c : UInt8), natOfDigits 10 (l ++ [c]) = natOfDigits 10 l * 10 + (digitVal c).getD 0 := by
+        intro l c; simp [natOfDigits, List.foldl_append]
+      rw [e, ih (n / 10) (by rw [Nat.pow_succ] at h; omega), digitVal_ofNat' (n % 10) (Nat.mod_lt _ (by decide))]
+      simp; omega
+
+theorem natOfDigits_natText (no : Nat) (h : no < 2 ^ 32) : natOfDigits 10 (natText no) = no :=
+  natOfDigits_digitsOf 400 no (Nat.lt_trans h (by decide))
+
+theorem pMember_item {f : Nat} {e : PExpr} {no : Nat} {ts : List Tok} (h : no < 2 ^ 32) :
+    pMember (f + 1) e (ch 64 :: ⟨cINT, natText no⟩ :: ts) = pMember f (.item e no) ts := by
+  have h64 : ¬ (2 ^ 64 ≤ no) := by omega
+  rw [pMember.eq_def]
+  simp [natOfDigits_natText no h, Nat.mod_eq_of_lt h, h64, ch, cDOT, cAT, cINT]
+
+theorem pMember_setm {f : Nat} {e x : PExpr} {no : Nat} {ts3 ts5 : List Tok} (h : no < 2 ^ 32)
+    (hx : pLevel f 9 ts3 = .ok (x, ch 41 :: ts5)) :
+    pMember (f + 1) e (ch 46 :: kw "set" :: ch 64 :: ⟨cINT, natText no⟩ :: ch 40 :: ts3) = pMember f (.setm e no x) ts5 := by
+  have h64 : ¬ (2 ^ 64 ≤ no) := by omega
+  rw [pMember.eq_def]
+  simp [natOfDigits_natText no h, Nat.mod_eq_of_lt h, h64, hx, kw, ch, cDOT, cAT, cINT, cLP, cRP, bind, Except.bind]
+
+/-- what `wf` says about a member name: it is not `set`, and the table gives the arity -/
+theorem member_facts {n : Bytes} {k : Nat} (h : memberArity.any (fun m => bytesOf m.1 == n && m.2 == k) = true) :
+    (n == bytesOf "set") = false ∧ ∃ s, memberArity.find? (fun m => bytesOf m.1 == n) = some (s, k) := by
+  simp only [memberArity, List.any_cons, List.any_nil, Bool.or_false, Bool.or_eq_true, Bool.and_eq_true, beq_iff_eq] at h
+  rcases h with ⟨h1, h2⟩ | ⟨h1, h2⟩ | ⟨h1, h2⟩ | ⟨h1, h2⟩ | ⟨h1, h2⟩ | ⟨h1, h2⟩ <;> subst h1 <;> subst h2 <;>
+    first
+      | exact ⟨by decide, "concat", by decide⟩ | exact ⟨by decide, "at", by decide⟩ | exact ⟨by decide, "put", by decide⟩
+      | exact ⟨by decide, "count", by decide⟩ | exact ⟨by decide, "delete", by decide⟩ | exact ⟨by decide, "insert", by decide⟩
+
+theorem pMember_call0 {f : Nat} {e : PExpr} {n : Bytes} {ts : List Tok}
+    (hm : memberArity.any (fun m => bytesOf m.1 == n && m.2 == 0) = true) :
+    pMember (f + 1) e (ch 46 :: ⟨cKW, n⟩ :: ch 40 :: ch 41 :: ts) = pMember f (.member e n []) ts := by
+  obtain ⟨hs, s, hf⟩ := member_facts hm
+  rw [pMember.eq_def]
+  simp [hs, hf, ch, cDOT, cAT, cLP, cRP]
+
+theorem pMember_callN {f : Nat} {e : PExpr} {n : Bytes} {t3 : Tok} {ts3 ts5 : List Tok} {args : List PExpr}
+    (hm : memberArity.any (fun m => bytesOf m.1 == n && m.2 == args.length) = true) (h3 : t3.code ≠ cRP)
+    (hargs : pArgs f (t3 :: ts3) = .ok (args, ts5)) :
+    pMember (f + 1) e (ch 46 :: ⟨cKW, n⟩ :: ch 40 :: t3 :: ts3) = pMember f (.member e n args) ts5 := by
+  obtain ⟨hs, s, hf⟩ := member_facts hm
+  have h3' : ¬ t3.code = 41 := h3
+  rw [pMember.eq_def]
+  simp [hs, hf, h3', hargs, bind, Except.bind, ch, cDOT, cAT, cLP, cRP]
+
 
 /-! ## Facts about operator tokens -/
 
@@ -256,12 +350,22 @@ theorem lvlOf_cases (op : POp) : lvlOf op = 2 ∨ lvlOf op = 8 ∨ isLoop (lvlOf
 
 /-! ## Facts about trees -/
 
-/-- size used as recursion measure and fuel bound; an enclosed operator is one larger than the same
-operator without parentheses -/
-def esize : PExpr → Nat
-  | .un _ enc x => esize x + 2 + (if enc then 1 else 0)
-  | .bin _ enc a b => esize a + esize b + 2 + (if enc then 1 else 0)
-  | _ => 1
+mutual
+  /-- size used as recursion measure and fuel bound; an enclosed operator is one larger than the same
+  operator without parentheses -/
+  def esize : PExpr → Nat
+    | .un _ enc x => esize x + 2 + (if enc then 1 else 0)
+    | .bin _ enc a b => esize a + esize b + 2 + (if enc then 1 else 0)
+    | .call _ args => esizeArgs args + 2
+    | .fcall _ args => esizeArgs args + 2
+    | .member e _ args => esize e + esizeArgs args + 2
+    | .setm e _ a => esize e + esize a + 2
+    | .item e _ => esize e + 2
+    | .int _ | .num _ | .str _ | .var _ | .kw _ => 1
+  def esizeArgs : List PExpr → Nat
+    | [] => 0
+    | a :: as => esize a + 1 + esizeArgs as
+end
 
 theorem wf_setEnc (x : PExpr) : wf (setEnc x) = wf x := by
   cases x <;> simp [setEnc, wf]
@@ -316,25 +420,63 @@ theorem constKw_facts {k : Bytes} (h : isConstKw k = true) :
 theorem numTok_code (d : UInt64) : (numTok d).code = cDBL ∨ (numTok d).code = cFLT := by
   unfold numTok; simp only; split <;> simp
 
-theorem head_not_un : ∀ (a : PExpr), wf a = true → core a = true → lvlE a ≤ 2 →
-    ∃ t ts, toksExpr a = t :: ts ∧ unAt t = none
-  | .int v, hwf, _, _ => by
+theorem arityOk_not_not {n : Bytes} {k : Nat} (h : arityOk n k = true) : n ≠ bytesOf "not" := by
+  intro heq; subst heq
+  have hf : builtinArity.find? (fun e => bytesOf e.1 == bytesOf "not") = none := by decide
+  simp [arityOk, hf] at h
+
+/-- The first token of the text of a well-formed expression: never `)`, and not a prefix operator when the
+node is produced below `primary` (all node kinds). -/
+theorem head_tok : ∀ (a : PExpr), wf a = true →
+    ∃ t ts, toksExpr a = t :: ts ∧ (t.code ≠ cRP ∧ t.code ≠ cSEMI) ∧ (lvlE a ≤ 2 → unAt t = none)
+  | .int v, hwf => by
     have hv : ¬ v < 0 := by simp [wf] at hwf; exact Int64.not_lt.mpr hwf
-    exact ⟨⟨cINT, intToString v⟩, [], by simp [toksExpr, intTok, hv], by simp [unAt, cINT, cKW, Gen.TOKEN_INTEGER, Gen.TOKEN_KEYWORD]⟩
-  | .num d, _, _, _ => by
-    refine ⟨numTok d, [], by simp [toksExpr], ?_⟩
-    rcases numTok_code d with h | h <;> simp [unAt, h, cDBL, cFLT, cKW, Gen.TOKEN_DOUBLE, Gen.TOKEN_FLOAT, Gen.TOKEN_KEYWORD]
-  | .str s, _, _, _ => ⟨⟨cSTR, readableLiteral s⟩, [], by simp [toksExpr], by simp [unAt, cSTR, cKW, Gen.TOKEN_LITERALSTR, Gen.TOKEN_KEYWORD]⟩
-  | .var n, hwf, _, _ => ⟨⟨cKW, n⟩, [], by simp [toksExpr], kwTok_unAt (nameOk_not_not (by simpa [wf] using hwf))⟩
-  | .kw k, hwf, _, _ => ⟨⟨cKW, k⟩, [], by simp [toksExpr], kwTok_unAt (constKw_facts (by simpa [wf] using hwf)).2.2⟩
-  | .un op enc x, _, _, hl => by
+    exact ⟨⟨cINT, intToString v⟩, [], by simp [toksExpr, intTok, hv], ⟨by show cINT ≠ cRP; decide, by show cINT ≠ cSEMI; decide⟩,
+      fun _ => by simp [unAt, cINT, cKW, Gen.TOKEN_INTEGER, Gen.TOKEN_KEYWORD]⟩
+  | .num d, _ => by
+    refine ⟨numTok d, [], by simp [toksExpr], ?_, fun _ => ?_⟩
+    · constructor <;> rcases numTok_code d with h | h <;> rw [h] <;> decide
+    · rcases numTok_code d with h | h <;> simp [unAt, h, cDBL, cFLT, cKW, Gen.TOKEN_DOUBLE, Gen.TOKEN_FLOAT, Gen.TOKEN_KEYWORD]
+  | .str s, _ => ⟨⟨cSTR, readableLiteral s⟩, [], by simp [toksExpr], ⟨by show cSTR ≠ cRP; decide, by show cSTR ≠ cSEMI; decide⟩,
+      fun _ => by simp [unAt, cSTR, cKW, Gen.TOKEN_LITERALSTR, Gen.TOKEN_KEYWORD]⟩
+  | .var n, hwf => ⟨⟨cKW, n⟩, [], by simp [toksExpr], ⟨by show cKW ≠ cRP; decide, by show cKW ≠ cSEMI; decide⟩,
+      fun _ => kwTok_unAt (nameOk_not_not (by simpa [wf] using hwf))⟩
+  | .kw k, hwf => ⟨⟨cKW, k⟩, [], by simp [toksExpr], ⟨by show cKW ≠ cRP; decide, by show cKW ≠ cSEMI; decide⟩,
+      fun _ => kwTok_unAt (constKw_facts (by simpa [wf] using hwf)).2.2⟩
+  | .call n args, hwf => by
+    simp only [wf, Bool.and_eq_true] at hwf
+    exact ⟨⟨cKW, n⟩, _, by simp only [toksExpr]; rfl, ⟨by show cKW ≠ cRP; decide, by show cKW ≠ cSEMI; decide⟩, fun _ => kwTok_unAt (arityOk_not_not hwf.1.2)⟩
+  | .fcall n args, hwf => by
+    simp only [wf, Bool.and_eq_true] at hwf
+    exact ⟨⟨cKW, n⟩, _, by simp only [toksExpr]; rfl, ⟨by show cKW ≠ cRP; decide, by show cKW ≠ cSEMI; decide⟩, fun _ => kwTok_unAt (nameOk_not_not hwf.1)⟩
+  | .member e n args, hwf => by
+    simp only [wf, Bool.and_eq_true] at hwf
+    have hl1 : lvlE e = 1 := by simpa using hwf.1.1.2
+    obtain ⟨t, ts, h1, h2, h3⟩ := head_tok e hwf.1.1.1.2
+    exact ⟨t, _, by simp only [toksExpr, h1, List.cons_append]; rfl, h2, fun _ => h3 (by omega)⟩
+  | .setm e no a, hwf => by
+    simp only [wf, Bool.and_eq_true] at hwf
+    have hl1 : lvlE e = 1 := by simpa using hwf.1.1.2
+    obtain ⟨t, ts, h1, h2, h3⟩ := head_tok e hwf.1.1.1.2
+    exact ⟨t, _, by simp only [toksExpr, h1, List.cons_append]; rfl, h2, fun _ => h3 (by omega)⟩
+  | .item e no, hwf => by
+    simp only [wf, Bool.and_eq_true] at hwf
+    have hl1 : lvlE e = 1 := by simpa using hwf.1.2
+    obtain ⟨t, ts, h1, h2, h3⟩ := head_tok e hwf.1.1.2
+    exact ⟨t, _, by simp only [toksExpr, h1, List.cons_append]; rfl, h2, fun _ => h3 (by omega)⟩
+  | .un op enc x, _ => by
     cases enc with
-    | false => simp [lvlE] at hl
-    | true => exact ⟨ch 40, _, by simp only [toksExpr, tparen, if_true]; rfl, lp_not_un⟩
-  | .bin op enc a b, hwf, hcore, hl => by
-    cases enc with
-    | true => exact ⟨ch 40, _, by simp only [toksExpr, tparen, if_true]; rfl, lp_not_un⟩
     | false =>
+      refine ⟨unTok op, _, by simp only [toksExpr, tparen]; rfl, by cases op <;> decide, fun hl => ?_⟩
+      simp [lvlE] at hl
+    | true => exact ⟨ch 40, _, by simp only [toksExpr, tparen, if_true]; rfl, by decide, fun _ => lp_not_un⟩
+  | .bin op enc a b, hwf => by
+    cases enc with
+    | true => exact ⟨ch 40, _, by simp only [toksExpr, tparen, if_true]; rfl, by decide, fun _ => lp_not_un⟩
+    | false =>
+      have hwa : wf a = true := by simp only [wf, Bool.and_eq_true] at hwf; exact hwf.1.1
+      obtain ⟨t, ts, h1, h2, h3⟩ := head_tok a hwa
+      refine ⟨t, ts ++ opTok op :: toksExpr b, by simp [toksExpr, tparen, h1], h2, fun hl => h3 ?_⟩
       have hop : lvlOf op = 2 := by
         simp [lvlE] at hl
         rcases lvlOf_cases op with h | h | h
@@ -342,11 +484,11 @@ theorem head_not_un : ∀ (a : PExpr), wf a = true → core a = true → lvlE a 
         · omega
         · unfold isLoop at h; omega
       simp [wf, hop] at hwf
-      simp [core] at hcore
-      obtain ⟨t, ts, h1, h2⟩ := head_not_un a hwf.1.1 hcore.1 (by omega)
-      exact ⟨t, ts ++ opTok op :: toksExpr b, by simp [toksExpr, tparen, h1], h2⟩
-  | .call .., _, hc, _ | .fcall .., _, hc, _ | .member .., _, hc, _ | .setm .., _, hc, _ | .item .., _, hc, _ => by
-    simp [core] at hc
+      omega
+
+theorem head_not_un (a : PExpr) (hwf : wf a = true) (hl : lvlE a ≤ 2) : ∃ t ts, toksExpr a = t :: ts ∧ unAt t = none := by
+  obtain ⟨t, ts, h1, _, h3⟩ := head_tok a hwf
+  exact ⟨t, ts, h1, h3 hl⟩
 
 
 /-! ## The round trip of the operator core -/
@@ -389,11 +531,11 @@ theorem desc_eight {e : PExpr} (ih : PStm e 7) : PStm e 8 := by
   obtain ⟨f', rfl⟩ : ∃ f', f = f' + 1 := ⟨f - 1, by omega⟩
   exact pLevel_eight_none (ih t ts (hst.mono (by omega)) hv f' (by omega)) (hst.at (Nat.le_refl _) (by simp))
 
-theorem desc_three {e : PExpr} (hwf : wf e = true) (hcore : core e = true) (hl : lvlE e ≤ 2) (ih : PStm e 2) : PStm e 3 := by
+theorem desc_three {e : PExpr} (hwf : wf e = true) (hl : lvlE e ≤ 2) (ih : PStm e 2) : PStm e 3 := by
   intro t ts hst hv f hf
   obtain ⟨f', rfl⟩ : ∃ f', f = f' + 1 := ⟨f - 1, by omega⟩
   have hx := ih t ts (hst.mono (by omega)) hv f' (by omega)
-  obtain ⟨t0, ts0, h0, hu⟩ := head_not_un e hwf hcore hl
+  obtain ⟨t0, ts0, h0, hu⟩ := head_not_un e hwf hl
   rw [h0] at hx ⊢
   simp only [List.cons_append] at hx ⊢
   rw [pLevel_three_none hu]; exact hx
@@ -430,101 +572,277 @@ theorem enc_level1 {inner e : PExpr} (hq : PStm inner 9) (htoks : toksExpr e = c
   rw [e1, pElem_paren h9, hnorm]
   exact pMember_stop hst.2.2.2.2.2.2.2.1 hst.2.2.2.2.2.2.2.2
 
-theorem core_rt (e : PExpr) (L : Nat) (hwf : wf e = true) (hcore : core e = true) (hl : lvlE e ≤ L) (h9 : L ≤ 9) :
-    PStm e L ∧ (isLoop L → RStm e L) := by
+/-- Continuation form at `element()`: parsing the tokens of an element that is not a number is parsing whatever
+`member()` makes of `norm e` and the rest (member chains `e.m(..)@N.set@M(x)` are left-nested). -/
+def MStm (e : PExpr) : Prop :=
+  ∀ (t : Tok) (ts : List Tok) (res : PR (PExpr × List Tok)) (n : Nat), 1 ≤ n →
+    (endsVar e = true → t.code ≠ cLP) → (∀ f, n ≤ f → pMember f (norm e) (t :: ts) = res) →
+    ∀ f, n + 16 * esize e + 2 ≤ f → pElem f (toksExpr e ++ t :: ts) = res
+
+/-- argument lists: `a1 , a2 , … )` -/
+def AStm (args : List PExpr) : Prop :=
+  ∀ (rest : List Tok) (f : Nat), 16 * esizeArgs args + 14 ≤ f →
+    pArgs f (joinToks (ch 44) (toksArgs args) ++ ch 41 :: rest) = .ok (normArgs args, rest)
+
+theorem pstm_of_mstm {e : PExpr} (hm : MStm e) : PStm e 1 := by
+  intro t ts hst hv f hf
+  obtain ⟨f', rfl⟩ : ∃ f', f = f' + 1 := ⟨f - 1, by omega⟩
+  rw [pLevel_one]
+  refine hm t ts _ 1 (Nat.le_refl _) hv ?_ f' (by omega)
+  intro g hg
+  obtain ⟨g', rfl⟩ : ∃ g', g = g' + 1 := ⟨g - 1, by omega⟩
+  exact pMember_stop hst.2.2.2.2.2.2.2.1 hst.2.2.2.2.2.2.2.2
+
+theorem enc_mstm {inner e : PExpr} (hq : PStm inner 9) (htoks : toksExpr e = ch 40 :: (toksExpr inner ++ [ch 41]))
+    (hnorm : norm e = setEnc (norm inner)) (hsz : esize e = esize inner + 1) : MStm e := by
+  intro t ts res n hn _ hcont f hf
+  obtain ⟨f', rfl⟩ : ∃ f', f = f' + 1 := ⟨f - 1, by omega⟩
+  rw [htoks]
+  have h9 := hq (ch 41) (t :: ts) rp_stops (fun _ => rp_not_lp) f' (by omega)
+  have e1 : (ch 40 :: (toksExpr inner ++ [ch 41])) ++ t :: ts = ch 40 :: (toksExpr inner ++ ch 41 :: t :: ts) := by simp
+  rw [e1, pElem_paren h9, ← hnorm]
+  exact hcont f' (by omega)
+
+theorem lvlE_le9 (e : PExpr) : lvlE e ≤ 9 := by
+  cases e with
+  | un op enc x => cases enc <;> simp [lvlE]
+  | bin op enc a b => cases enc <;> simp [lvlE] <;> cases op <;> simp [lvlOf]
+  | _ => simp [lvlE]
+
+theorem normArgs_length : ∀ (args : List PExpr), (normArgs args).length = args.length
+  | [] => by simp [normArgs]
+  | a :: as => by simp [normArgs, normArgs_length as]
+
+theorem joinToks_head (a : PExpr) (as : List PExpr) (hwf : wf a = true) :
+    ∃ t ts, joinToks (ch 44) (toksArgs (a :: as)) = t :: ts ∧ t.code ≠ cRP := by
+  obtain ⟨t, ts, h1, h2, _⟩ := head_tok a hwf
+  cases as with
+  | nil => exact ⟨t, ts, by simp [toksArgs, joinToks, h1], h2.1⟩
+  | cons b bs => exact ⟨t, _, by simp only [toksArgs, joinToks, h1, List.cons_append]; rfl, h2.1⟩
+
+mutual
+theorem full_rt (e : PExpr) (L : Nat) (hwf : wf e = true) (hl : lvlE e ≤ L) (h9 : L ≤ 9) :
+    PStm e L ∧ (isLoop L → RStm e L) ∧ (L = 1 → isNumLit e = false → MStm e) := by
   have hpos := lvlE_pos e
   by_cases hlt : lvlE e < L
   · -- the node comes from a deeper level: descend one level
-    have ih : PStm e (L - 1) := (core_rt e (L - 1) hwf hcore (by omega) (by omega)).1
+    have ih : PStm e (L - 1) := (full_rt e (L - 1) hwf (by omega) (by omega)).1
     have hk : L = 2 ∨ L = 3 ∨ L = 4 ∨ L = 5 ∨ L = 6 ∨ L = 7 ∨ L = 8 ∨ L = 9 := by omega
     rcases hk with rfl | rfl | rfl | rfl | rfl | rfl | rfl | rfl
-    · exact ⟨desc_two ih, notLoop (by simp) e⟩
-    · exact ⟨desc_three hwf hcore (by omega) ih, notLoop (by simp) e⟩
+    · exact ⟨desc_two ih, notLoop (by simp) e, fun h => by omega⟩
+    · exact ⟨desc_three hwf (by omega) ih, notLoop (by simp) e, fun h => by omega⟩
     · have h := desc_loop (e := e) (L := 4) (by simp [isLoop]) ih
-      exact ⟨h.1, fun _ => h.2⟩
+      exact ⟨h.1, fun _ => h.2, fun h => by omega⟩
     · have h := desc_loop (e := e) (L := 5) (by simp [isLoop]) ih
-      exact ⟨h.1, fun _ => h.2⟩
+      exact ⟨h.1, fun _ => h.2, fun h => by omega⟩
     · have h := desc_loop (e := e) (L := 6) (by simp [isLoop]) ih
-      exact ⟨h.1, fun _ => h.2⟩
+      exact ⟨h.1, fun _ => h.2, fun h => by omega⟩
     · have h := desc_loop (e := e) (L := 7) (by simp [isLoop]) ih
-      exact ⟨h.1, fun _ => h.2⟩
-    · exact ⟨desc_eight ih, notLoop (by simp) e⟩
+      exact ⟨h.1, fun _ => h.2, fun h => by omega⟩
+    · exact ⟨desc_eight ih, notLoop (by simp) e, fun h => by omega⟩
     · have h := desc_loop (e := e) (L := 9) (by simp [isLoop]) ih
-      exact ⟨h.1, fun _ => h.2⟩
+      exact ⟨h.1, fun _ => h.2, fun h => by omega⟩
   · have hL : lvlE e = L := by omega
-    match e, hwf, hcore, hl, hlt, hL with
-    | .int v, hwf, _, _, _, hL =>
+    match e, hwf, hl, hlt, hL with
+    | .int v, hwf, _, _, hL =>
       have hv0 : v ≥ 0 := by simpa [wf] using hwf
       have hvn : ¬ v < 0 := Int64.not_lt.mpr hv0
       have h1 : L = 1 := by simp [lvlE] at hL; omega
       subst h1
-      refine ⟨atom_level1 (by simp [norm]) (by simp [esize]) ?_, notLoop (by simp) _⟩
+      refine ⟨atom_level1 (by simp [norm]) (by simp [esize]) ?_, notLoop (by simp) _, fun _ h => by simp [isNumLit] at h⟩
       intro t ts _ _ f hf
       obtain ⟨f', rfl⟩ : ∃ f', f = f' + 1 := ⟨f - 1, by omega⟩
       simp only [toksExpr, intTok, hvn, if_false, List.cons_append, List.nil_append]
       exact pElem_int (parseDec_intToString v hv0)
-    | .num d, hwf, _, _, _, hL =>
+    | .num d, hwf, _, _, hL =>
       have hd : parseNumeric (numText d) = some d := by simpa [wf, numOk] using hwf
       have h1 : L = 1 := by simp [lvlE] at hL; omega
       subst h1
-      refine ⟨atom_level1 (by simp [norm]) (by simp [esize]) ?_, notLoop (by simp) _⟩
+      refine ⟨atom_level1 (by simp [norm]) (by simp [esize]) ?_, notLoop (by simp) _, fun _ h => by simp [isNumLit] at h⟩
       intro t ts _ _ f hf
       obtain ⟨f', rfl⟩ : ∃ f', f = f' + 1 := ⟨f - 1, by omega⟩
       obtain ⟨c, hc, heq⟩ := numTok_eq d
       simp only [toksExpr, heq, List.cons_append, List.nil_append]
       exact pElem_num hc hd
-    | .str s, hwf, _, _, _, hL =>
+    | .str s, hwf, _, _, hL =>
       have hs : ∀ c ∈ s, c ≠ 0 := by simpa [wf] using hwf
       have h1 : L = 1 := by simp [lvlE] at hL; omega
       subst h1
-      refine ⟨atom_level1 (by simp [norm]) (by simp [esize]) ?_, notLoop (by simp) _⟩
-      intro t ts hst _ f hf
-      obtain ⟨f', rfl⟩ : ∃ f', f = f' + 1 := ⟨f - 1, by omega⟩
-      obtain ⟨f'', rfl⟩ : ∃ f'', f' = f'' + 1 := ⟨f' - 1, by omega⟩
-      simp only [toksExpr, List.cons_append, List.nil_append]
-      rw [pElem_str, parseLiteral_readable s hs]
-      exact pMember_stop hst.2.2.2.2.2.2.2.1 hst.2.2.2.2.2.2.2.2
-    | .var n, hwf, _, _, _, hL =>
+      have hm : MStm (.str s) := by
+        intro t ts res n hn _ hk f hf
+        obtain ⟨f', rfl⟩ : ∃ f', f = f' + 1 := ⟨f - 1, by omega⟩
+        simp only [toksExpr, List.cons_append, List.nil_append]
+        rw [pElem_str, parseLiteral_readable s hs]
+        exact hk f' (by omega)
+      exact ⟨pstm_of_mstm hm, notLoop (by simp) _, fun _ _ => hm⟩
+    | .var n, hwf, _, _, hL =>
       have hn : nameOk n = true := by simpa [wf] using hwf
       have h1 : L = 1 := by simp [lvlE] at hL; omega
       subst h1
-      refine ⟨atom_level1 (by simp [norm]) (by simp [esize]) ?_, notLoop (by simp) _⟩
-      intro t ts hst hv f hf
-      obtain ⟨f', rfl⟩ : ∃ f', f = f' + 1 := ⟨f - 1, by omega⟩
-      obtain ⟨f'', rfl⟩ : ∃ f'', f' = f'' + 1 := ⟨f' - 1, by omega⟩
-      simp only [toksExpr, List.cons_append, List.nil_append]
-      rw [pElem_var (nameOk_notBuiltin hn) (hv (by simp [endsVar])), nameOk_upper hn]
-      exact pMember_stop hst.2.2.2.2.2.2.2.1 hst.2.2.2.2.2.2.2.2
-    | .kw k, hwf, _, _, _, hL =>
+      have hm : MStm (.var n) := by
+        intro t ts res k hk hv hcont f hf
+        obtain ⟨f', rfl⟩ : ∃ f', f = f' + 1 := ⟨f - 1, by omega⟩
+        simp only [toksExpr, List.cons_append, List.nil_append]
+        rw [pElem_var (nameOk_notBuiltin hn) (hv (by simp [endsVar])), nameOk_upper hn]
+        exact hcont f' (by omega)
+      exact ⟨pstm_of_mstm hm, notLoop (by simp) _, fun _ _ => hm⟩
+    | .kw k, hwf, _, _, hL =>
       have hk := constKw_facts (k := k) (by simpa [wf] using hwf)
       have h1 : L = 1 := by simp [lvlE] at hL; omega
       subst h1
-      refine ⟨atom_level1 (by simp [norm]) (by simp [esize]) ?_, notLoop (by simp) _⟩
-      intro t ts hst _ f hf
-      obtain ⟨f', rfl⟩ : ∃ f', f = f' + 1 := ⟨f - 1, by omega⟩
-      obtain ⟨f'', rfl⟩ : ∃ f'', f' = f'' + 1 := ⟨f' - 1, by omega⟩
-      simp only [toksExpr, List.cons_append, List.nil_append]
-      rw [pElem_kw hk.1 hk.2.1]
-      exact pMember_stop hst.2.2.2.2.2.2.2.1 hst.2.2.2.2.2.2.2.2
-    | .un u true x, hwf, hcore, _, _, hL =>
+      have hm : MStm (.kw k) := by
+        intro t ts res n hn _ hcont f hf
+        obtain ⟨f', rfl⟩ : ∃ f', f = f' + 1 := ⟨f - 1, by omega⟩
+        simp only [toksExpr, List.cons_append, List.nil_append]
+        rw [pElem_kw hk.1 hk.2.1]
+        exact hcont f' (by omega)
+      exact ⟨pstm_of_mstm hm, notLoop (by simp) _, fun _ _ => hm⟩
+    | .un u true x, hwf, _, _, hL =>
       have h1 : L = 1 := by simp [lvlE] at hL; omega
       subst h1
-      have hq := (core_rt (.un u false x) 9 (by simpa [wf] using hwf) (by simpa [core] using hcore)
-        (by simp [lvlE]) (by omega)).1
-      exact ⟨enc_level1 hq (by simp [toksExpr, tparen]) (by simp [norm, setEnc]) (by simp [esize]), notLoop (by simp) _⟩
-    | .bin op true a b, hwf, hcore, _, _, hL =>
+      have hq := (full_rt (.un u false x) 9 (by simpa [wf] using hwf) (by simp [lvlE]) (by omega)).1
+      have hm := enc_mstm hq (e := .un u true x) (by simp [toksExpr, tparen]) (by simp [norm, setEnc]) (by simp [esize])
+      exact ⟨pstm_of_mstm hm, notLoop (by simp) _, fun _ _ => hm⟩
+    | .bin op true a b, hwf, _, _, hL =>
       have h1 : L = 1 := by simp [lvlE] at hL; omega
       subst h1
-      have hq := (core_rt (.bin op false a b) 9 (by simpa [wf] using hwf) (by simpa [core] using hcore)
+      have hq := (full_rt (.bin op false a b) 9 (by simpa [wf] using hwf)
         (by simp [lvlE]; cases op <;> simp [lvlOf]) (by omega)).1
-      exact ⟨enc_level1 hq (by simp [toksExpr, tparen]) (by simp [norm, setEnc]) (by simp [esize]), notLoop (by simp) _⟩
-    | .un u false x, hwf, hcore, _, _, hL =>
+      have hm := enc_mstm hq (e := .bin op true a b) (by simp [toksExpr, tparen]) (by simp [norm, setEnc]) (by simp [esize])
+      exact ⟨pstm_of_mstm hm, notLoop (by simp) _, fun _ _ => hm⟩
+    | .call n args, hwf, _, _, hL =>
+      have h1 : L = 1 := by simp [lvlE] at hL; omega
+      subst h1
+      simp only [wf, Bool.and_eq_true] at hwf
+      obtain ⟨⟨⟨hb, hc⟩, ha⟩, hwa⟩ := hwf
+      have hc' : constKw n = none := by simpa using hc
+      have hargs : args ≠ [] → AStm args := fun hne => args_rt args hwa hne
+      have hm : MStm (.call n args) := by
+        intro t ts res k hk _ hcont f hf
+        obtain ⟨f', rfl⟩ : ∃ f', f = f' + 1 := ⟨f - 1, by omega⟩
+        have hcont' := hcont f' (by omega)
+        simp only [norm] at hcont'
+        cases args with
+        | nil =>
+          simp only [toksExpr, toksArgs, joinToks, List.cons_append, List.nil_append]
+          rw [pElem_call0 hb hc' ha]; exact hcont'
+        | cons a as =>
+          obtain ⟨t3, ts3, h3, hrp⟩ := joinToks_head a as (by simp only [wfArgs, Bool.and_eq_true] at hwa; exact hwa.1)
+          have hA := hargs (by simp) (t :: ts) f' (by simp only [esize] at hf; omega)
+          have e1 : toksExpr (.call n (a :: as)) ++ t :: ts =
+              ⟨cKW, n⟩ :: ch 40 :: (joinToks (ch 44) (toksArgs (a :: as)) ++ ch 41 :: t :: ts) := by simp [toksExpr]
+          rw [e1]
+          rw [h3] at hA ⊢
+          simp only [List.cons_append] at hA ⊢
+          rw [pElem_callN hb hc' hrp hA (by rw [normArgs_length]; exact ha)]; exact hcont'
+      exact ⟨pstm_of_mstm hm, notLoop (by simp) _, fun _ _ => hm⟩
+    | .fcall n args, hwf, _, _, hL =>
+      have h1 : L = 1 := by simp [lvlE] at hL; omega
+      subst h1
+      simp only [wf, Bool.and_eq_true] at hwf
+      obtain ⟨hn, hwa⟩ := hwf
+      have hargs : args ≠ [] → AStm args := fun hne => args_rt args hwa hne
+      have hm : MStm (.fcall n args) := by
+        intro t ts res k hk _ hcont f hf
+        obtain ⟨f', rfl⟩ : ∃ f', f = f' + 1 := ⟨f - 1, by omega⟩
+        have hcont' := hcont f' (by omega)
+        simp only [norm] at hcont'
+        cases args with
+        | nil =>
+          simp only [toksExpr, toksArgs, joinToks, List.cons_append, List.nil_append]
+          rw [pElem_fcall0 (nameOk_notBuiltin hn), nameOk_upper hn]; exact hcont'
+        | cons a as =>
+          obtain ⟨t3, ts3, h3, hrp⟩ := joinToks_head a as (by simp only [wfArgs, Bool.and_eq_true] at hwa; exact hwa.1)
+          have hA := hargs (by simp) (t :: ts) f' (by simp only [esize] at hf; omega)
+          have e1 : toksExpr (.fcall n (a :: as)) ++ t :: ts =
+              ⟨cKW, n⟩ :: ch 40 :: (joinToks (ch 44) (toksArgs (a :: as)) ++ ch 41 :: t :: ts) := by simp [toksExpr]
+          rw [e1]
+          rw [h3] at hA ⊢
+          simp only [List.cons_append] at hA ⊢
+          rw [pElem_fcallN (nameOk_notBuiltin hn) hrp hA, nameOk_upper hn]; exact hcont'
+      exact ⟨pstm_of_mstm hm, notLoop (by simp) _, fun _ _ => hm⟩
+    | .member e n args, hwf, _, _, hL =>
+      have h1 : L = 1 := by simp [lvlE] at hL; omega
+      subst h1
+      simp only [wf, Bool.and_eq_true] at hwf
+      obtain ⟨⟨⟨⟨hmem, hwe⟩, hle⟩, hnl⟩, hwa⟩ := hwf
+      have hle1 : lvlE e = 1 := by simpa using hle
+      have me : MStm e := (full_rt e 1 hwe (by omega) (by omega)).2.2 rfl (by simpa using hnl)
+      have hargs : args ≠ [] → AStm args := fun hne => args_rt args hwa hne
+      have hm : MStm (.member e n args) := by
+        intro t ts res k hk _ hcont f hf
+        have e1 : toksExpr (.member e n args) ++ t :: ts =
+            toksExpr e ++ ch 46 :: ⟨cKW, n⟩ :: ch 40 :: (joinToks (ch 44) (toksArgs args) ++ ch 41 :: t :: ts) := by
+          simp [toksExpr]
+        rw [e1]
+        refine me (ch 46) _ res (k + 16 * esizeArgs args + 15) (by omega) (fun _ => by decide) ?_ f
+          (by simp only [esize] at hf; omega)
+        intro g hg
+        obtain ⟨g', rfl⟩ : ∃ g', g = g' + 1 := ⟨g - 1, by omega⟩
+        have hcont' := hcont g' (by omega)
+        simp only [norm] at hcont'
+        cases args with
+        | nil =>
+          simp only [toksArgs, joinToks, List.nil_append]
+          rw [pMember_call0 (by simpa using hmem)]; exact hcont'
+        | cons a as =>
+          obtain ⟨t3, ts3, h3, hrp⟩ := joinToks_head a as (by simp only [wfArgs, Bool.and_eq_true] at hwa; exact hwa.1)
+          have hA := hargs (by simp) (t :: ts) g' (by omega)
+          rw [h3] at hA ⊢
+          simp only [List.cons_append] at hA ⊢
+          rw [pMember_callN (by rw [normArgs_length]; exact hmem) hrp hA]; exact hcont'
+      exact ⟨pstm_of_mstm hm, notLoop (by simp) _, fun _ _ => hm⟩
+    | .setm e no a, hwf, _, _, hL =>
+      have h1 : L = 1 := by simp [lvlE] at hL; omega
+      subst h1
+      simp only [wf, Bool.and_eq_true] at hwf
+      obtain ⟨⟨⟨⟨hno, hwe⟩, hle⟩, hnl⟩, hwa⟩ := hwf
+      have hno' : no < 2 ^ 32 := by simpa using hno
+      have hle1 : lvlE e = 1 := by simpa using hle
+      have me : MStm e := (full_rt e 1 hwe (by omega) (by omega)).2.2 rfl (by simpa using hnl)
+      have pa := (full_rt a 9 hwa (lvlE_le9 a) (by omega)).1
+      have hm : MStm (.setm e no a) := by
+        intro t ts res k hk _ hcont f hf
+        have e1 : toksExpr (.setm e no a) ++ t :: ts =
+            toksExpr e ++ ch 46 :: kw "set" :: ch 64 :: ⟨cINT, natText no⟩ :: ch 40 :: (toksExpr a ++ ch 41 :: t :: ts) := by
+          simp [toksExpr]
+        rw [e1]
+        refine me (ch 46) _ res (k + 16 * esize a + 14) (by omega) (fun _ => by decide) ?_ f
+          (by simp only [esize] at hf; omega)
+        intro g hg
+        obtain ⟨g', rfl⟩ : ∃ g', g = g' + 1 := ⟨g - 1, by omega⟩
+        have hcont' := hcont g' (by omega)
+        simp only [norm] at hcont'
+        have hx := pa (ch 41) (t :: ts) rp_stops (fun _ => rp_not_lp) g' (by omega)
+        rw [pMember_setm hno' hx]; exact hcont'
+      exact ⟨pstm_of_mstm hm, notLoop (by simp) _, fun _ _ => hm⟩
+    | .item e no, hwf, _, _, hL =>
+      have h1 : L = 1 := by simp [lvlE] at hL; omega
+      subst h1
+      simp only [wf, Bool.and_eq_true] at hwf
+      obtain ⟨⟨⟨hno, hwe⟩, hle⟩, hnl⟩ := hwf
+      have hno' : no < 2 ^ 32 := by simpa using hno
+      have hle1 : lvlE e = 1 := by simpa using hle
+      have me : MStm e := (full_rt e 1 hwe (by omega) (by omega)).2.2 rfl (by simpa using hnl)
+      have hm : MStm (.item e no) := by
+        intro t ts res k hk _ hcont f hf
+        have e1 : toksExpr (.item e no) ++ t :: ts = toksExpr e ++ ch 64 :: ⟨cINT, natText no⟩ :: t :: ts := by
+          simp [toksExpr]
+        rw [e1]
+        refine me (ch 64) _ res (k + 1) (by omega) (fun _ => by decide) ?_ f (by simp only [esize] at hf; omega)
+        intro g hg
+        obtain ⟨g', rfl⟩ : ∃ g', g = g' + 1 := ⟨g - 1, by omega⟩
+        have hcont' := hcont g' (by omega)
+        simp only [norm] at hcont'
+        rw [pMember_item hno']; exact hcont'
+      exact ⟨pstm_of_mstm hm, notLoop (by simp) _, fun _ _ => hm⟩
+    | .un u false x, hwf, _, _, hL =>
       have h3 : L = 3 := by simp [lvlE] at hL; omega
       subst h3
       have hwx : wf x = true ∧ lvlE x ≤ 2 := by simpa [wf] using hwf
-      have hq := (core_rt (setEnc x) 2 (by rw [wf_setEnc]; exact hwx.1) (by rw [core_setEnc]; simpa [core] using hcore)
+      have hq := (full_rt (setEnc x) 2 (by rw [wf_setEnc]; exact hwx.1)
         (by rw [lvlE_setEnc]; omega) (by omega)).1
-      refine ⟨?_, notLoop (by simp) _⟩
+      refine ⟨?_, notLoop (by simp) _, fun h => by omega⟩
       intro t ts hst hv f hf
       obtain ⟨f', rfl⟩ : ∃ f', f = f' + 1 := ⟨f - 1, by omega⟩
       have hv' : endsVar (setEnc x) = true → t.code ≠ cLP := by
@@ -536,9 +854,8 @@ theorem core_rt (e : PExpr) (L : Nat) (hwf : wf e = true) (hcore : core e = true
         simp [toksExpr, tparen, toks_setEnc]
       rw [e1, pLevel_three_un (unAt_unTok u) hx]
       simp [norm, norm_setEnc]
-    | .bin op false a b, hwf, hcore, _, _, hL =>
+    | .bin op false a b, hwf, _, _, hL =>
       have hLop : lvlOf op = L := by simpa [lvlE] using hL
-      have hca : core a = true ∧ core b = true := by simpa [core] using hcore
       have etoks : ∀ (t : Tok) (ts : List Tok),
           toksExpr (.bin op false a b) ++ t :: ts = toksExpr a ++ opTok op :: (toksExpr b ++ t :: ts) := by
         intro t ts; simp [toksExpr, tparen]
@@ -549,9 +866,9 @@ theorem core_rt (e : PExpr) (L : Nat) (hwf : wf e = true) (hcore : core e = true
         have hw : (wf a = true ∧ wf b = true) ∧ lvlE a ≤ 1 ∧ lvlE b ≤ 2 := by simpa [wf, h2] using hwf
         have hL2 : L = 2 := by omega
         subst hL2
-        have pa := (core_rt a 1 hw.1.1 hca.1 hw.2.1 (by omega)).1
-        have pb := (core_rt b 2 hw.1.2 hca.2 hw.2.2 (by omega)).1
-        refine ⟨?_, notLoop (by simp) _⟩
+        have pa := (full_rt a 1 hw.1.1 hw.2.1 (by omega)).1
+        have pb := (full_rt b 2 hw.1.2 hw.2.2 (by omega)).1
+        refine ⟨?_, notLoop (by simp) _, fun h => by omega⟩
         intro t ts hst hv f hf
         obtain ⟨f', rfl⟩ : ∃ f', f = f' + 1 := ⟨f - 1, by omega⟩
         have hs1 : Stops 1 (opTok op) := by have := opTok_stops op; rw [h2] at this; exact this
@@ -563,9 +880,9 @@ theorem core_rt (e : PExpr) (L : Nat) (hwf : wf e = true) (hcore : core e = true
         have hw : (wf a = true ∧ wf b = true) ∧ lvlE a ≤ 7 ∧ lvlE b ≤ 7 := by simpa [wf, h8] using hwf
         have hL8 : L = 8 := by omega
         subst hL8
-        have pa := (core_rt a 7 hw.1.1 hca.1 hw.2.1 (by omega)).1
-        have pb := (core_rt b 7 hw.1.2 hca.2 hw.2.2 (by omega)).1
-        refine ⟨?_, notLoop (by simp) _⟩
+        have pa := (full_rt a 7 hw.1.1 hw.2.1 (by omega)).1
+        have pb := (full_rt b 7 hw.1.2 hw.2.2 (by omega)).1
+        refine ⟨?_, notLoop (by simp) _, fun h => by omega⟩
         intro t ts hst hv f hf
         obtain ⟨f', rfl⟩ : ∃ f', f = f' + 1 := ⟨f - 1, by omega⟩
         have hs7 : Stops 7 (opTok op) := by have := opTok_stops op; rw [h8] at this; exact this
@@ -581,8 +898,8 @@ theorem core_rt (e : PExpr) (L : Nat) (hwf : wf e = true) (hcore : core e = true
           simpa [wf, hne2, hne8] using hwf
         rw [hLop] at hw
         have hL4 : 4 ≤ L := by unfold isLoop at hloop; omega
-        have ra := (core_rt a L hw.1.1 hca.1 hw.2.1 h9).2 hloop
-        have pb := (core_rt b (L - 1) hw.1.2 hca.2 hw.2.2 (by omega)).1
+        have ra := (full_rt a L hw.1.1 hw.2.1 h9).2.1 hloop
+        have pb := (full_rt b (L - 1) hw.1.2 hw.2.2 (by omega)).1
         have hsop : Stops (L - 1) (opTok op) := by have := opTok_stops op; rw [hLop] at this; exact this
         have hop : opAt L (opTok op) = some op := by have := opAt_opTok op; rw [hLop] at this; exact this
         have hR : RStm (.bin op false a b) L := by
@@ -596,22 +913,58 @@ theorem core_rt (e : PExpr) (L : Nat) (hwf : wf e = true) (hcore : core e = true
           rw [pLoop_some hop hy]
           rw [enorm] at hk
           exact hk g' (by omega)
-        refine ⟨?_, fun _ => hR⟩
+        refine ⟨?_, fun _ => hR, fun h => by unfold isLoop at hloop; omega⟩
         intro t ts hst hv f hf
         refine hR t ts _ 1 (Nat.le_refl _) (hst.mono (by omega)) hv ?_ f (by omega)
         intro g hg
         obtain ⟨g', rfl⟩ : ∃ g', g = g' + 1 := ⟨g - 1, by omega⟩
         have hkk : L = 2 ∨ L = 4 ∨ L = 5 ∨ L = 6 ∨ L = 7 ∨ L = 8 ∨ L = 9 := by unfold isLoop at hloop; omega
         exact pLoop_none (hst.at (Nat.le_refl _) hkk)
-    | .call .., _, hc, _, _, _ | .fcall .., _, hc, _, _, _ | .member .., _, hc, _, _, _ | .setm .., _, hc, _, _, _
-    | .item .., _, hc, _, _, _ => simp [core] at hc
 termination_by (esize e, L)
 decreasing_by
   all_goals simp_wf
   all_goals first
     | (apply Prod.Lex.right; omega)
     | (apply Prod.Lex.left; simp only [esize]; exact Nat.lt_of_le_of_lt (esize_setEnc _) (by simp))
+    | (apply Prod.Lex.left; simp only [esize]; omega)
     | (apply Prod.Lex.left; simp [esize] <;> omega)
+
+theorem args_rt (args : List PExpr) (hwf : wfArgs args = true) (hne : args ≠ []) : AStm args := by
+  match args, hwf, hne with
+  | [a], hwf, _ =>
+    have hwa : wf a = true := by simp only [wfArgs, Bool.and_eq_true] at hwf; exact hwf.1
+    have pa := (full_rt a 9 hwa (lvlE_le9 a) (by omega)).1
+    intro rest f hf
+    obtain ⟨f', rfl⟩ : ∃ f', f = f' + 1 := ⟨f - 1, by omega⟩
+    simp only [toksArgs, joinToks, normArgs]
+    exact pArgs_last (pa (ch 41) rest rp_stops (fun _ => rp_not_lp) f' (by simp only [esizeArgs] at hf; omega))
+  | a :: b :: as, hwf, _ =>
+    have hw : wf a = true ∧ wfArgs (b :: as) = true := by simp only [wfArgs, Bool.and_eq_true] at hwf ⊢; exact hwf
+    have pa := (full_rt a 9 hw.1 (lvlE_le9 a) (by omega)).1
+    have ih := args_rt (b :: as) hw.2 (by simp)
+    intro rest f hf
+    obtain ⟨f', rfl⟩ : ∃ f', f = f' + 1 := ⟨f - 1, by omega⟩
+    have e1 : joinToks (ch 44) (toksArgs (a :: b :: as)) ++ ch 41 :: rest =
+        toksExpr a ++ ch 44 :: (joinToks (ch 44) (toksArgs (b :: as)) ++ ch 41 :: rest) := by
+      simp [toksArgs, joinToks]
+    rw [e1]
+    have hx := pa (ch 44) (joinToks (ch 44) (toksArgs (b :: as)) ++ ch 41 :: rest) (by decide) (fun _ => by decide) f'
+      (by simp only [esizeArgs] at hf ⊢; omega)
+    have hy := ih rest f' (by simp only [esizeArgs] at hf ⊢; omega)
+    rw [pArgs_more hx hy]
+    simp [normArgs]
+termination_by (esizeArgs args, 0)
+decreasing_by
+  all_goals simp_wf
+  all_goals first
+    | (apply Prod.Lex.left; simp only [esizeArgs]; omega)
+    | (apply Prod.Lex.left; simp [esizeArgs])
+end
+
+/-- the operator core as a special case (kept for its users) -/
+theorem core_rt (e : PExpr) (L : Nat) (hwf : wf e = true) (_hcore : core e = true) (hl : lvlE e ≤ L) (h9 : L ≤ 9) :
+    PStm e L ∧ (isLoop L → RStm e L) :=
+  ⟨(full_rt e L hwf hl h9).1, (full_rt e L hwf hl h9).2.1⟩
 
 
 /-! ## `norm` changes neither the text, nor the tokens, nor the translation -/
